@@ -634,7 +634,7 @@ func tryReplay(prop string, o *Oblig, in *ObligInstance, path, verif string, ri 
 	if !hasSat {
 		return note("the solver gave no model (" + in.Result + ")")
 	}
-	for _, w := range []string{"called(", "lastret(", "lastarg(", "ncalls(", "went(", "stored(", "exclusive(", "heldsince(", "fresh(", "typeis(", "as(", "has(", "hassuffix(", "hasprefix(", "contains(", "samearray(", "entry(", "athead("} {
+	for _, w := range []string{"called(", "lastret(", "lastarg(", "ncalls(", "went(", "stored(", "exclusive(", "heldsince(", "fresh(", "typeis(", "as(", "has(", "hassuffix(", "hasprefix(", "contains(", "samearray(", "entry(", "athead(", "initer("} {
 		if strings.Contains(o.Clause, w) {
 			return note("not replayable: the clause speaks about events or abstractions (" + strings.TrimSuffix(w, "(") + ") that only exist in the verifier")
 		}
